@@ -137,6 +137,10 @@ class TypeEval:
             return self.ev(f, st.value, env) if st.value is not None else None
         if isinstance(st, ast.Assign) and len(st.targets) == 1:
             t = st.targets[0]
+            if is_self_attr(t):
+                # lazy slot fill inside a property: the slot takes the type of its definition
+                self.atoms[norm(t)] = self.ev(f, st.value, env)
+                return None
             if isinstance(t, ast.Name):
                 env[t.id] = self.ev(f, st.value, env)
             elif isinstance(t, ast.Tuple) and isinstance(st.value, ast.Tuple):
@@ -173,6 +177,17 @@ class TypeEval:
             cur = env.get(nm, self.L.zero)
             cur = cur if isinstance(cur, DO) else DO(cur, cur)
             env[nm] = DO(self.L.collapse(self.ev(f, st.value.args[1], env)), cur.o)
+            return None
+        if isinstance(st, ast.Try):
+            out = None
+            for s2 in list(st.body) + list(st.orelse) + list(st.finalbody):
+                r2 = self._stmt(f, s2, env)
+                if r2 is not None:
+                    out = r2 if out is None else self.L.join_sum(out, r2)
+            return out  # handlers that only re-raise do not produce values
+        if isinstance(st, ast.Assign) and len(st.targets) == 1 and is_self_attr(st.targets[0]):
+            # lazy slot fill inside a property: the slot takes the type of its definition
+            self.atoms[norm(st.targets[0])] = self.ev(f, st.value, env)
             return None
         if isinstance(st, (ast.Raise, ast.Expr, ast.Pass)):
             return None
@@ -284,9 +299,14 @@ class TypeEval:
             if cn == "np.diag" and len(args) == 1:
                 a = args[0]
                 return a.d if isinstance(a, DO) else DO(a, Z)
+            last = cn.split(".")[-1]
+            if last in ("TriangularMatrix", "DiagonalMatrix", "PositiveDiagonalMatrix", "DenseSymmetricMatrix", "DenseSquareMatrix", "DenseRectangularMatrix", "DensePositiveDefiniteMatrix", "DenseDefiniteMatrix", "ScaledIdentityMatrix", "PositiveScaledIdentityMatrix") and args:
+                return L.collapse(args[0])  # the matrix whose entries are the first argument
+            if last in ("InverseTriangularMatrix",) and args:
+                return L.neg(L.collapse(args[0]))
             if cn.split(".")[-1] in ("EigendecomposedSymmetricMatrix", "EigendecomposedPositiveDefiniteMatrix") and len(args) == 2:
                 return L.add(L.add(L.collapse(args[0]), L.collapse(args[0])), L.collapse(args[1]))
-            if cn in ("np.log", "np.exp", "nla.cholesky", "nla.eigh", "sla.lu_factor"):
+            if cn in ("np.log", "np.exp", "nla.eigh", "sla.lu_factor"):
                 return L.zero if all(a == L.zero for a in args) else TOP
             if cn in SAME_FUNCS:
                 out = None
@@ -295,6 +315,11 @@ class TypeEval:
                 return out if out is not None else L.zero
             if cn in ("sla.solve_triangular", "sla.lu_solve", "nla.solve", "sla.solve"):
                 return L.add(L.neg(args[0]), args[1])
+            if cn in ("sla.cho_solve",) and len(e.args) >= 2 and isinstance(e.args[0], ast.Tuple) and e.args[0].elts:
+                c = L.collapse(self.ev(f, e.args[0].elts[0], env))
+                return L.add(L.neg(L.add(c, c)), args[1])
+            if cn in ("nla.cholesky", "np.linalg.cholesky", "sla.cholesky") and len(args) == 1:
+                return L.scale(args[0], Fraction(1, 2))
             # method call on a typed object
             if isinstance(e.func, ast.Attribute):
                 base = self.ev(f, e.func.value, env) if not (isinstance(e.func.value, ast.Name) and e.func.value.id in ("np", "sla", "nla")) else L.zero
